@@ -58,6 +58,8 @@ def gen_file_spec(tape, label="file", kinds=None):
     kinds = kinds or KINDS
     kind = kinds[tape.draw(len(kinds), f"{label}.kind")]
     spec = {"kind": kind}
+    spec["lsb_form"] = ["bool_array", "bool_list", "int_list", "uint8_array", "int64_array"][
+        tape.weighted([3, 1, 1, 1, 1], f"{label}.lsbform")]
     if kind.startswith("sample_"):
         if kind == "sample_vdif":
             spec["lsb"] = ["no", "all", "mask"][tape.draw(3, f"{label}.lsb")]
@@ -109,8 +111,14 @@ def gen_file_spec(tape, label="file", kinds=None):
     return spec
 
 
+READER_ONLY_KEYS = ("lsb", "lsb_form", "sigtype", "intensity", "squeeze")
+
+
 def _hash(spec):
-    return hashlib.sha256(json.dumps(spec, sort_keys=True).encode()).hexdigest()[:16]
+    """Content address of the FILE: reader options do not enter, so that two readers with
+    different options can share one file (and one file name)."""
+    content = {k: v for k, v in spec.items() if k not in READER_ONLY_KEYS}
+    return hashlib.sha256(json.dumps(content, sort_keys=True).encode()).hexdigest()[:16]
 
 
 def _mask(n, seed=0):
@@ -214,6 +222,13 @@ def synthesise(spec):
 
 def reader_spec(spec):
     """How to open a pulsarbat reader on the file: {cls, name, kwargs(JSON-able)}."""
+    rs = _reader_spec(spec)
+    if rs["cls"] == "BasebandReader" and rs.get("lsb") == "mask":
+        rs["lsb_form"] = spec.get("lsb_form", "bool_array")
+    return rs
+
+
+def _reader_spec(spec):
     kind = spec["kind"]
     if kind == "sample_dada":
         return {"cls": "BasebandReader", "name": "samples/sample.dada", "lsb": spec["lsb"],
@@ -252,7 +267,10 @@ def reader_spec(spec):
     raise ValueError(kind)
 
 
-def lsb_value(rs):
+def lsb_value(rs, as_given=False):
+    """The lower_sideband flags as a boolean array (model) or, with as_given, in the form
+    the client passes them: bool ndarray, list of bools, list of 0/1 ints, uint8/int64 array
+    (the documented type is 'bool or array-like of booleans'; the reader coerces)."""
     lsb = rs.get("lsb", "no")
     if lsb == "no":
         return False
@@ -261,7 +279,19 @@ def lsb_value(rs):
     shp = tuple(rs["in_shape"])
     if not shp:
         return True
-    return np.array(_mask(int(np.prod(shp)))).reshape(shp)
+    m = np.array(_mask(int(np.prod(shp)))).reshape(shp)
+    if not as_given:
+        return m
+    form = rs.get("lsb_form", "bool_array")
+    if form == "bool_list":
+        return m.tolist()
+    if form == "int_list":
+        return m.astype(int).tolist()
+    if form == "uint8_array":
+        return m.astype(np.uint8)
+    if form == "int64_array":
+        return m.astype(np.int64)
+    return m
 
 
 def open_reader(pb, rs):
@@ -285,7 +315,7 @@ def open_reader(pb, rs):
     if rs.get("intensity"):
         kw["intensity"] = True
     return pb.readers.BasebandReader(name, signal_type=st, signal_kwargs=skw,
-                                     lower_sideband=lsb_value(rs), **kw)
+                                     lower_sideband=lsb_value(rs, as_given=True), **kw)
 
 
 # ---------------------------------------------------------------------------
